@@ -73,7 +73,7 @@ func c01tmp(name string, data []byte) (string, error) {
 	if err := os.MkdirAll(dir, 0o755); err != nil {
 		return "", err
 	}
-	p := filepath.Join(dir, "c01-"+strconv.Itoa(os.Getpid())+"-"+name)
+	p := filepath.Join(dir, "c01-"+strconv.Itoa(os.Getpid())+"-"+strconv.FormatInt(runner.Unique(), 10)+"-"+name)
 	return p, os.WriteFile(p, data, 0o644)
 }
 
